@@ -259,14 +259,14 @@ def run(ctx):
     nt = lambda c: reuse_count(c['sm']) >= 1  # noqa: E731
     lab = lambda c: [f'reused-names={min(reuse_count(c["sm"]), 5)}',  # noqa: E731
                      'mc' if c['spec'].get('mc') else 'no-mc']
-    ctx.clause('uses_right_declaration', base, check_uses_right_declaration, ctx.n(700, 40000),
+    ctx.clause('uses_right_declaration', base, check_uses_right_declaration, ctx.n(1600, 40000),
                nontrivial=nt, labels=lab)
     ctx.clause('unrelated_namespaces', st.tuples(base, st.integers(0, 11)).map(
-        lambda t: {**t[0], 'pick': t[1]}), check_unrelated, ctx.n(300, 20000), nontrivial=nt,
+        lambda t: {**t[0], 'pick': t[1]}), check_unrelated, ctx.n(600, 20000), nontrivial=nt,
         labels=lambda c: ['unrelated'])
     ctx.clause('bad_reference_rejected', st.tuples(base, st.sampled_from(REF_FAULTS),
                                                    st.integers(0, 50)).map(
-        lambda t: {**t[0], 'fault': t[1], 'pick': t[2]}), check_ref_fault, ctx.n(500, 30000),
+        lambda t: {**t[0], 'fault': t[1], 'pick': t[2]}), check_ref_fault, ctx.n(1200, 30000),
         nontrivial=lambda c: apply_ref_fault(c['sm'], c['spec'], c['fault'], c['pick']) is not None,
         labels=lambda c: [c['fault']])
     for k, v in INCONCLUSIVE.items():
